@@ -354,6 +354,10 @@ class ScriptAction:
                     out = 'accepted'
                 except (TypeError, AssertionError, RuntimeError) as e:
                     out = 'refused:' + type(e).__name__
+            elif kind == 'sched_unregister':
+                out = w.devs[op['sched']].unregister_object(w.devs[op['target']])
+            elif kind == 'sched_register':
+                out = w.devs[op['sched']].register_object(w.devs[op['target']], BlockByState(None, op['sched']))
             elif kind == 'bad_history_removal':
                 # a request the library must refuse: removing an entry the batch's own history does not have
                 n = 0
